@@ -313,6 +313,60 @@ func init() {
 	}
 	setReward("sX0=1L", tX, 0, "1L")
 	setReward("sX1=1L", tX, 1, "1L")
+	// a first registration that says isCandidate=false: the deposit is paid, the account is "unregistered"
+	tdef(&tLetter{name: "rC2false", deposit: tC2, amount: minDeposit, mk: func(exp uint64) *types.Transaction {
+		return node.Register(tC2, minDeposit, tprofile(tC2, "false", tC2.Addr), exp)
+	}})
+	// an unregister transaction that carries an amount
+	tdef(&tLetter{name: "xC1$5", unreg: tC1, mk: func(exp uint64) *types.Transaction {
+		return node.Register(tC1, node.Lemo(5), tprofile(tC1, "false", tC1.Addr), exp)
+	}})
+	// reward settings that carry LEMO to the precompiled account (accepted / refused)
+	for _, term := range []uint32{0, 1} {
+		term := term
+		for _, who := range []*node.Key{tFounder, tX} {
+			who := who
+			name := fmt.Sprintf("s%d=1L$2", term)
+			if who == tX {
+				name = fmt.Sprintf("sX%d=1L$2", term)
+			}
+			data, _ := json.Marshal(map[string]string{"term": strconv.Itoa(int(term)), "value": node.Lemo(1).String()})
+			to := params.TermRewardContract
+			tdef(&tLetter{name: name, reward: &rewardCall{who, term, node.Lemo(1)}, mk: func(exp uint64) *types.Transaction {
+				return node.Tx(node.TxSpec{Type: params.OrdinaryTx, From: who, To: &to, Amount: node.Lemo(2), Data: data, Exp: exp, GasLimit: 100000})
+			}})
+		}
+	}
+}
+
+// box letters are written "B:a;b": a box signed and paid by X with the sub-transactions a, b (each
+// signed and paid by its own sender at its own price)
+func boxLetter(name string) *tLetter {
+	subs := strings.Split(strings.TrimPrefix(name, "B:"), ";")
+	return &tLetter{name: name, mk: func(exp uint64) *types.Transaction {
+		var l []*types.Transaction
+		for i, sn := range subs {
+			sl := tLetters[sn]
+			if sl == nil {
+				panic("no tx letter " + sn)
+			}
+			// a sub-transaction must not expire before its box
+			l = append(l, sl.mk(exp+8+uint64(i)))
+		}
+		return node.Box(tX, exp, l...)
+	}}
+}
+
+func letterOf(name string) *tLetter {
+	if l := tLetters[name]; l != nil {
+		return l
+	}
+	if strings.HasPrefix(name, "B:") {
+		l := boxLetter(name)
+		tLetters[name] = l
+		return l
+	}
+	return nil
 }
 
 // a block letter is "-" (empty) or tx letters joined by "+", e.g. "xC1+xC3" ... but "+" also occurs
@@ -393,7 +447,8 @@ func init() {
 // ---------------------------------------------------------------------------------------------
 // world
 
-const tExpBase = uint64(node.GenesisTime) + 1200
+// every block time of a history lies in GenesisTime+1 .. +450; expirations in GenesisTime+640 .. +1260 (see txsOfLetter)
+const tExpBase = uint64(node.GenesisTime) + 600
 
 type tworld struct {
 	f       *node.Factory
@@ -403,6 +458,7 @@ type tworld struct {
 	snap    map[uint32]types.DeputyNodes
 	trace   []string
 	verbose bool
+	hist    []string
 }
 
 type rewardEntry struct {
